@@ -23,6 +23,7 @@ import (
 	"github.com/33cn/chain33/common/merkle"
 	"github.com/33cn/chain33/queue"
 	cty "github.com/33cn/chain33/system/dapp/coins/types"
+	sysmem "github.com/33cn/chain33/system/mempool"
 	"github.com/33cn/chain33/types"
 	"github.com/33cn/chain33/util"
 	"github.com/33cn/chain33/util/testnode"
@@ -152,8 +153,9 @@ type node struct {
 	rpc    queue.Client
 	mu     sync.Mutex
 	nonces map[string]int64
-	blocks []*types.Block // best chain, genesis first
-	work   []int          // work exponent of blocks[i]
+	mem    *sysmem.Mempool // the pool inside the testnode, learnt through the verif observer
+	blocks []*types.Block  // best chain, genesis first
+	work   []int           // work exponent of blocks[i]
 	t0     int64
 }
 
@@ -183,6 +185,26 @@ func newNode(pc poolCfg, t0 int64) (rig, error) {
 			}
 		}
 	}()
+	// testnode does not expose its pool: a removal of an absent hash makes it report itself
+	found := make(chan *sysmem.Mempool, 4)
+	sysmem.VerifSetGlobalHook(func(m *sysmem.Mempool, kind string) {
+		select {
+		case found <- m:
+		default:
+		}
+	})
+	err = r.api.RemoveTxsByHashList(&types.TxHashList{Hashes: [][]byte{[]byte("verif-no-such-transaction")}})
+	sysmem.VerifSetGlobalHook(nil)
+	if err != nil {
+		r.Close()
+		return nil, err
+	}
+	select {
+	case r.mem = <-found:
+	default:
+		r.Close()
+		return nil, fmt.Errorf("the node's pool did not report the removal event")
+	}
 	g, err := n.chain.GetBlock(0)
 	if err != nil {
 		r.Close()
@@ -192,8 +214,6 @@ func newNode(pc poolCfg, t0 int64) (rig, error) {
 	r.work = []int{0}
 	return r, nil
 }
-
-func (r *node) heightOffset() int64 { return trunk }
 
 // fund builds the trunk: the first block funds every sender, the rest carry a filler transfer.
 func (r *node) fund(c *conc) error {
@@ -315,7 +335,8 @@ func (r *node) Remove(hashes [][]byte) error {
 }
 
 func (r *node) Sweep() error {
-	return fmt.Errorf("the expiry ticker of a full node cannot be triggered from outside")
+	r.mem.VerifSweep()
+	return nil
 }
 
 func (r *node) TxList(k int, excl [][]byte) ([]*types.Transaction, error) {
@@ -326,6 +347,17 @@ func (r *node) Observe(addrs []string, hashes [][]byte) (*obs, error) {
 	o := &obs{fee: -1, bytes: -1, cnt: map[string]int64{}}
 	if err := observeAPI(r.api, r.cli, addrs, hashes, o); err != nil {
 		return nil, err
+	}
+	s := r.mem.VerifSnapshot()
+	o.snap = s
+	o.raw = s.Queue
+	if o.raw == nil {
+		o.raw = [][]byte{}
+	}
+	o.fee, o.sumFee, o.bytes, o.sumBytes = s.TotalFee, s.SumFee, s.Bytes, s.SumBytes
+	o.height = s.Height - trunk
+	for _, a := range addrs {
+		o.cnt[a] = r.mem.TxNumOfAccount(a)
 	}
 	return o, nil
 }
